@@ -178,7 +178,7 @@ static void c15_batch(long idx, long n, uint64_t seed) {
         auto build = [&](int k) {
             int b = beh[(size_t)k], param = params[(size_t)k], to = timeoutMs[(size_t)k]; const std::string& bodyIn = bodies[(size_t)k];
             // one URL in twelve has a query and no path ("host:port?id=..."): the request line must still carry an origin-form target
-            std::string url = dead[(size_t)k] ? "http://255.255.255.255:9/t/" + std::to_string(k) + "/0/0" : (k % 12 == 7) ? base + "?id=" + std::to_string(k) + "&b=" + std::to_string(b) + "&p=" + std::to_string(param) : base + "/t/" + std::to_string(k) + "/" + std::to_string(b) + "/" + std::to_string(param);
+            std::string url = dead[(size_t)k] ? std::string((idx / 100000 + idx % 100000) % 2 ? "http://127.0.0.1:1" : "http://255.255.255.255:9") + "/t/" + std::to_string(k) + "/0/0" : (k % 12 == 7) ? base + "?id=" + std::to_string(k) + "&b=" + std::to_string(b) + "&p=" + std::to_string(param) : base + "/t/" + std::to_string(k) + "/" + std::to_string(b) + "/" + std::to_string(param);
             auto rb = bodyIn.empty() ? client.get(url) : client.post(url);
             if (!bodyIn.empty()) rb.body(bodyIn);
             rb.header<Http::Header::Server>("blen-" + std::to_string(bodyIn.size()));
